@@ -121,21 +121,21 @@ CHECKS["C05"] = dict(
 CHECKS["C09"] = dict(
     engine="tlc-sysv+llgo+c",
     technique="TLA+ System V classification (SysVAbi/SysVShapes/SysVCall) enumerates struct shapes and call shapes and selects one representative per classification state x argument position x register pressure; llgo-compiled Go<->C programs must satisfy the identity law field by field in six directions; gcc<->gcc/clang self-validates the generated C",
-    text="~390 cases in quick (2,500 in thorough, O0 and O2*): every classification vector, nesting/padding pattern and register-pressure situation the TLA+ ABI model distinguishes is exercised as Go->C argument, C->Go result, callback parameter, callback result and by-value copy semantics with distinct bit patterns (sign bits, NaN payloads); C strings round-trip through AllocCStr/AllocaCStr/GoString.",
+    text="~390 cases in quick (2,500 in thorough, O0 and O2*): every classification vector, nesting/padding pattern and register-pressure situation the TLA+ ABI model distinguishes is exercised as Go->C argument, C->Go result, callback parameter, callback result and by-value copy semantics with distinct bit patterns (sign bits, NaN payloads); C strings round-trip through AllocCStr/AllocaCStr/GoString. Added: every second callback result is an earlier copy of a variable modified before the return; 240 variadic calls (SysVVariadic: struct prefix class x 0-3 variadic arguments); 20,679 cgo byte-buffer scripts (CBuf: CString/CBytes/GoString/GoStringN/GoBytes are snapshots); narrow integers behind aggregates of every class with the callee at -O2 (SysVNarrow).",
     note="only the host ABI (x86-64 System V) is executed; classification drift vs GetTypeInfo is reported, never judged; O2 = reduced pipeline O2*",
     design="5 C09")
 CHECKS["C15"] = dict(
     engine="tlc-reflectmodel+llgo",
     technique="TLA+ TypeTerms/ReflectModel/FmtModel own the grammar of type strings, method sets, DeepEqual and fmt verbs; TLC enumerates type/value terms with the expected text of every query; llgo-compiled self-describing programs in four reflect-usage variants must print exactly that text; the reference toolchain validates the spec text",
     text="~330 type terms / 13k expected lines in quick (2.4k / 83k in thorough) over named and unnamed types, methods on value and pointer receivers, embedding and promotion, tags, unexported fields, generic instances; Kind/Name/PkgPath/String/fields/method tables/reflected calls/DeepEqual (incl. all 3-node pointer heaps)/Convert/Set and %v %+v %#v %T %d %s %q %x %t. "
-         "Program variants differ in which reflect calls appear, to exercise method-table pruning.",
+         "Program variants differ in which reflect calls appear, to exercise method-table pruning. Laws (c15x/c15ro): EmbedLookup, ConvCopy, BlankCmp, ReflectRO (read-only flags along 126 field paths x addressable / copy), SliceEq (DeepEqual on every pair of 38 slice windows, plain and wrapped), ChanStr (strings of nested directional channels).",
     note="float formatting, width/precision flags and func-value size facts are outside the spec; three known finding classes are represented by fixed terms and seeded generation is kept away from them",
     design="5 C15")
 
 CHECKS["C19"] = dict(
     engine="tlc-pybridge+llgo+python",
     technique="TLA+ PyBridge (value terms with limb integers, RoundTrip/Call/Lookup laws) and PyImports (import-once state machine over program shapes) enumerated by TLC with the expected echo/trace; llgo programs linked with libpython3.11 must produce it; python3 validates the spec's expectations; PyImportImpl (layer B) model-checked",
-    text="~9,000 value/call/lookup cases (64-bit boundary integers, special floats, text incl. NUL and multi-byte, bytes incl. invalid UTF-8, nested lists/tuples, arities 0-6) are sent to Python and read back; the Python side logs what it received. Program shapes with 1-3 packages using math/json/a local module in var/init/run positions must import each module exactly once, before first use.",
+    text="~9,000 value/call/lookup cases (64-bit boundary integers, special floats, text incl. NUL and multi-byte, bytes incl. invalid UTF-8, nested lists/tuples, arities 0-6) are sent to Python and read back; the Python side logs what it received. Program shapes with 1-3 packages using math/json/a local module in var/init/run positions must import each module exactly once, before first use. PyCallShapes: 77 cases (two bindings of one attribute with arities 0-3, Go-variadic bindings, function references as arguments, module/package/submodule symbols bound together, one Python function per kind of call site incl. generic instances and initialisers), each in its own process.",
     note="O0 only; reference counts not observed; any topological init order accepted (exact order is C12's)",
     design="5 C19")
 CHECKS["C14"] = dict(
@@ -148,7 +148,7 @@ CHECKS["C14"] = dict(
 CHECKS["C06"] = dict(
     engine="tlc-trace-validation+llgo",
     technique="TLA+ FiniteMap (entries by equality class incl. +0/-0, NaN, interface keys; Go's range rule with need/yielded sets) with TLC trace validation of the calls logged by an llgo-compiled generic map interpreter; MapGrowth (layer B) conformance reported",
-    text="TLC-enumerated scripts (all histories up to 4-5 tokens over four 3-key universes) and seeded random histories crossing doubling and same-size growth, with mutation (insert/delete/clear) scripted inside range loops, for 6 key types x 3 value sizes (0, 8, 136 bytes); every logged result, the hmap count and every yielded entry must be a behaviour of FiniteMap. Each run must reach the growth situations (else exit 2).",
+    text="TLC-enumerated scripts (all histories up to 4-5 tokens over four 3-key universes) and seeded random histories crossing doubling and same-size growth, with mutation (insert/delete/clear) scripted inside range loops, for 10 key types (int, string, float64, any, [2]int, struct, complex128, struct{complex64;int32}, [2]float32, interface with a method holding pointer-shaped dynamic types + pointee writes) x 3 value sizes (0, 8, 136 bytes); every logged result, the hmap count and every yielded entry must be a behaviour of FiniteMap. Each run must reach the growth situations (else exit 2).",
     note="live map sizes stay below ~7k entries; a map reassigned inside a running loop is not modelled",
     design="5 C06")
 CHECKS["C08"] = dict(
@@ -161,7 +161,7 @@ CHECKS["C08"] = dict(
 CHECKS["C13"] = dict(
     engine="tlc-histories+llgo-build",
     technique="TLA+ BuildCache (inputs with content and stat, packages reading inputs, cache keyed by an abstract key; Fresh / NoopStable / KeyFunctional / Repro) as judge; TLC enumerates canonical edit/build histories (BuildCases) and computes the expected markers (BuildReplay); each history is replayed with the real `llgo build` and a persistent private cache; CacheKey/CacheProbe (layer B: collect.go's manifest) model-checked for missing inputs",
-    text="Histories over 13 inputs of a generated module main->p1->p2 (Go source, embedded file, LLGoFiles C file and -X value per package; build tag, -O level, LLGO_TRACE) "
+    text="Histories over 13 inputs of a generated module main->p1->p2 (Go source, one embed variable over two files whose boundary moves, LLGoFiles C file and -X value per package; build tag through a #cgo line, -O level, LLGO_TRACE in six spellings) "
          "x {edit, edit keeping size+mtime, touch} with builds, no-op rebuilds and cache clears: a deterministic cover of every single change plus a seeded sample "
          "(17 histories / ~70 real builds in quick; 200+ histories incl. TLC-simulated length-10 ones with a clean differential build after every step in thorough). "
          "After every build the program's markers must equal those of the current inputs (Fresh); two clean builds into empty caches must give byte-identical archive members "
